@@ -56,3 +56,217 @@ PROPS["C20"] = {
 		"out": ["capacities above 4 (the code has no capacity-dependent branch besides len >= max_length and len/2)", "hashing", "byte budget -> capacity for other K,V", "last_index within 8 of u64::MAX"],
 	},
 }
+
+PROPS["C15"]["harnesses"] += [
+	H("c15_h6_count", CORE, c15, funcs=["TileBBox::width", "TileBBox::height", "TileBBox::count_tiles"], bounds=ALL_LEVELS, sample=BBOX, tier="thorough", timeout=2400),
+	H("c15_h6_count_product", CORE, c15, funcs=["TileBBox::width", "TileBBox::height", "TileBBox::count_tiles"], bounds=ALL_LEVELS + "; one side <= 8 tiles, the other unbounded", sample=BBOX),
+	H("c15_h7_index_small", CORE, c15, funcs=["TileBBox::get_tile_index2", "TileBBox::get_tile_index3", "TileBBox::get_coord2_by_index", "TileBBox::get_coord3_by_index"],
+		bounds=ALL_LEVELS + "; box at most 8x8 tiles at any position; index any u32", sample=BBOX + "; tile p; index i"),
+	H("c15_h8_iter_coords", CORE, c15, funcs=["TileBBox::iter_coords", "TileBBox::into_iter_coords"], bounds=ALL_LEVELS + "; box at most 3x3 tiles", sample=BBOX, tier="thorough", timeout=2400),
+	H("c15_h8_iter_coords_2x2", CORE, c15, funcs=["TileBBox::iter_coords", "TileBBox::into_iter_coords"], bounds=ALL_LEVELS + "; box at most 2x2 tiles", sample=BBOX),
+	H("c15_h9_grid_s1_2x1", CORE, c15, funcs=["TileBBox::iter_bbox_grid", "TileBBox::scale_down", "TileBBox::iter_coords"], bounds=ALL_LEVELS + "; grid size 1 (concrete), box at most 2x1 tiles at any position (at most 2 cells)", sample=BBOX + "; tile p", stubs=["u32::pow(2,z) -> 1<<z"], tier="quick", timeout=None),
+	H("c15_h9_grid_s1_1x2", CORE, c15, funcs=["TileBBox::iter_bbox_grid", "TileBBox::scale_down", "TileBBox::iter_coords"], bounds=ALL_LEVELS + "; grid size 1 (concrete), box at most 1x2 tiles at any position (at most 2 cells)", sample=BBOX + "; tile p", stubs=["u32::pow(2,z) -> 1<<z"], tier="thorough", timeout=None),
+	H("c15_h9_grid_s2_2x1", CORE, c15, funcs=["TileBBox::iter_bbox_grid", "TileBBox::scale_down", "TileBBox::iter_coords"], bounds=ALL_LEVELS + "; grid size 2 (concrete), box at most 2x1 tiles at any position (at most 2 cells)", sample=BBOX + "; tile p", stubs=["u32::pow(2,z) -> 1<<z"], tier="thorough", timeout=None),
+	H("c15_h9_grid_s2_1x2", CORE, c15, funcs=["TileBBox::iter_bbox_grid", "TileBBox::scale_down", "TileBBox::iter_coords"], bounds=ALL_LEVELS + "; grid size 2 (concrete), box at most 1x2 tiles at any position (at most 2 cells)", sample=BBOX + "; tile p", stubs=["u32::pow(2,z) -> 1<<z"], tier="quick", timeout=None),
+	H("c15_h9_grid_s256_256x1", CORE, c15, funcs=["TileBBox::iter_bbox_grid", "TileBBox::scale_down", "TileBBox::iter_coords"], bounds=ALL_LEVELS + "; grid size 256 (concrete), box at most 256x1 tiles at any position (at most 2 cells)", sample=BBOX + "; tile p", stubs=["u32::pow(2,z) -> 1<<z"], tier="quick", timeout=None),
+	H("c15_h9_grid_s256_1x256", CORE, c15, funcs=["TileBBox::iter_bbox_grid", "TileBBox::scale_down", "TileBBox::iter_coords"], bounds=ALL_LEVELS + "; grid size 256 (concrete), box at most 1x256 tiles at any position (at most 2 cells)", sample=BBOX + "; tile p", stubs=["u32::pow(2,z) -> 1<<z"], tier="thorough", timeout=None),
+	H("c15_h9_grid_s2_2x2", CORE, c15, funcs=["TileBBox::iter_bbox_grid", "TileBBox::scale_down", "TileBBox::iter_coords"], bounds=ALL_LEVELS + "; grid size 2 (concrete), box at most 2x2 tiles at any position (at most 2 cells)", sample=BBOX + "; tile p", stubs=["u32::pow(2,z) -> 1<<z"], tier="thorough", timeout=2400),
+	H("c15_h9_grid_zero", CORE, c15, funcs=["TileBBox::iter_bbox_grid"], bounds=ALL_LEVELS, sample=BBOX),
+]
+
+# ------------------------------------------------------------------------------------------ C19 (core part)
+c19c = "verif_kani::c19"
+MON = "alloc::vec::from_elem (vec![0u8; n]) -> allocation monitor asserting n <= 8*input_len + 64"
+
+
+def _pbf(name, n, fn, tier="quick"):
+	return H(name, CORE, c19c, tier=tier, funcs=[f"ValueReader::{fn}", "ValueReaderSlice::get_sub_reader", "ValueReader::read_varint"],
+		bounds=f"every byte string of exactly {n} bytes", sample=f"[u8; {n}] fully symbolic -> ValueReaderSlice::new_le -> {fn}", stubs=[MON])
+
+
+PROPS["C19"] = {
+	"harnesses": [
+		_pbf("c19_varint_11", 11, "read_varint"), _pbf("c19_svarint_11", 11, "read_svarint"), _pbf("c19_pbf_key_11", 11, "read_pbf_key"),
+		_pbf("c19_pbf_blob_4", 4, "read_pbf_blob"), _pbf("c19_pbf_blob_11", 11, "read_pbf_blob", "thorough"),
+		_pbf("c19_pbf_string_3", 3, "read_pbf_string"), _pbf("c19_pbf_string_11", 11, "read_pbf_string", "thorough"),
+		_pbf("c19_pbf_packed_4", 4, "read_pbf_packed_uint32"), _pbf("c19_pbf_packed_11", 11, "read_pbf_packed_uint32", "thorough"),
+		_pbf("c19_pbf_sub_reader_11", 11, "get_pbf_sub_reader"),
+		H("c19_sub_reader_any_length", CORE, c19c, funcs=["ValueReaderSlice::get_sub_reader", "ValueReader::read_blob", "ValueReader::read_string"],
+			bounds="8-byte buffer, any position 0..8, any announced length (u64)", sample="position, length: u64 symbolic", stubs=[MON]),
+	],
+	"meta": {
+		"assumptions": ["vec![0u8; n] is routed through an allocation monitor (n <= 8*input_len + 64) instead of the allocator"],
+		"out": ["parse_vpl (C18)", "number parsing (dec2flt)", "opening whole MBTiles/tar/directory containers (SQLite, tar, file system)", "real decompressors", "stack depth of the recursive JSON parser"],
+	},
+}
+
+PYR = "TileBBoxPyramid whose 32 level boxes are all symbolic (each from the box generator); symbolic level l; symbolic tile p"
+PROPS["C15"]["harnesses"] += [
+	H("c15_h11_pyramid_intersect", CORE, "verif_kani::c15pyr", funcs=["TileBBoxPyramid::intersect", "TileBBox::intersect_bbox"], bounds=ALL_LEVELS, sample="two " + PYR),
+	H("c15_h11_pyramid_include", CORE, "verif_kani::c15pyr", funcs=["TileBBoxPyramid::include_bbox_pyramid", "TileBBoxPyramid::iter_levels", "TileBBox::include_bbox"], bounds=ALL_LEVELS, sample="two " + PYR),
+	H("c15_h11_pyramid_include_one", CORE, "verif_kani::c15pyr", funcs=["TileBBoxPyramid::include_bbox", "TileBBoxPyramid::include_coord"], bounds=ALL_LEVELS, sample=PYR + "; box; coordinate"),
+	H("c15_h11_pyramid_count", CORE, "verif_kani::c15pyr", funcs=["TileBBoxPyramid::count_tiles", "TileBBoxPyramid::is_empty"], bounds=ALL_LEVELS + "; level boxes at most 256x256", sample=PYR),
+	H("c15_h11_pyramid_queries", CORE, "verif_kani::c15pyr", funcs=["TileBBoxPyramid::contains_coord", "TileBBoxPyramid::overlaps_bbox", "TileBBoxPyramid::get_zoom_min", "TileBBoxPyramid::get_zoom_max", "TileBBoxPyramid::is_empty"], bounds=ALL_LEVELS, sample=PYR),
+	H("c15_h11_pyramid_zoom_limits", CORE, "verif_kani::c15pyr", funcs=["TileBBoxPyramid::set_zoom_min", "TileBBoxPyramid::set_zoom_max"], bounds=ALL_LEVELS + "; zoom limits any u8", sample=PYR + "; zmin, zmax"),
+	H("c15_h11_pyramid_transform", CORE, "verif_kani::c15pyr", funcs=["<TileBBoxPyramid as TransformCoord>::flip_y", "<TileBBoxPyramid as TransformCoord>::swap_xy"], bounds=ALL_LEVELS, sample=PYR, stubs=["u32::pow(2,z) -> 1<<z"]),
+	H("c15_h11_pyramid_eq", CORE, "verif_kani::c15pyr", funcs=["<TileBBoxPyramid as PartialEq>::eq"], bounds=ALL_LEVELS, sample="two " + PYR),
+	H("c15_h11_pyramid_ctor", CORE, "verif_kani::c15pyr", funcs=["TileBBoxPyramid::new_full", "TileBBoxPyramid::new_empty"], bounds=ALL_LEVELS + "; max zoom any u8", sample="max_zoom_level: u8", stubs=["u32::pow(2,z) -> 1<<z"]),
+]
+
+# ------------------------------------------------------------------------------------------ container crate
+CONT = "versatiles_container"
+VT = "container::versatiles::types"
+PT = "container::pmtiles::types"
+POW = "u32::pow(2,z) -> 1<<z"
+
+PROPS["C19"]["harnesses"] += [
+	H("c19_block_definition_from_blob", CONT, f"{VT}::block_definition::kani_harness", funcs=["BlockDefinition::from_blob", "TileBBox::new"], bounds="every 33-byte string", sample="[u8; 33] fully symbolic", stubs=[POW]),
+	H("c19_block_definition_truncated", CONT, f"{VT}::block_definition::kani_harness", funcs=["BlockDefinition::from_blob"], bounds="every string of 0..=32 bytes", sample="[u8; n], n symbolic <= 32", stubs=[POW]),
+	H("c19_file_header_from_blob", CONT, f"{VT}::file_header::kani_harness", funcs=["FileHeader::from_blob"], bounds="every 66-byte string", sample="[u8; 66] fully symbolic"),
+	H("c19_file_header_wrong_length", CONT, f"{VT}::file_header::kani_harness", funcs=["FileHeader::from_blob"], bounds="every string of 0..=70 bytes except 66", sample="[u8; n]"),
+	H("c19_tile_index_from_blob_0", CONT, f"{VT}::tile_index::kani_harness", funcs=["TileIndex::from_blob"], bounds="empty string", sample="[u8; 0]", expect_cover=False),
+	H("c19_tile_index_from_blob_11", CONT, f"{VT}::tile_index::kani_harness", funcs=["TileIndex::from_blob"], bounds="every 11-byte string", sample="[u8; 11]"),
+	H("c19_tile_index_from_blob_12", CONT, f"{VT}::tile_index::kani_harness", funcs=["TileIndex::from_blob"], bounds="every 12-byte string", sample="[u8; 12]"),
+	H("c19_tile_index_from_blob_13", CONT, f"{VT}::tile_index::kani_harness", funcs=["TileIndex::from_blob"], bounds="every 13-byte string", sample="[u8; 13]"),
+	H("c19_tile_index_from_blob_24", CONT, f"{VT}::tile_index::kani_harness", funcs=["TileIndex::from_blob"], bounds="every 24-byte string", sample="[u8; 24]", tier="thorough"),
+	H("c19_block_index_from_blob_0", CONT, f"{VT}::block_index::kani_harness", funcs=["BlockIndex::from_blob"], bounds="empty string", sample="[u8; 0]", stubs=[POW, "HashMap model"]),
+	H("c19_block_index_from_blob_32", CONT, f"{VT}::block_index::kani_harness", funcs=["BlockIndex::from_blob"], bounds="every 32-byte string", sample="[u8; 32]", stubs=[POW, "HashMap model"]),
+	H("c19_block_index_from_blob_33", CONT, f"{VT}::block_index::kani_harness", funcs=["BlockIndex::from_blob", "BlockDefinition::from_blob", "Blob::read_range"], bounds="every 33-byte string", sample="[u8; 33]", stubs=[POW, "HashMap model"]),
+	H("c19_block_index_from_blob_66", CONT, f"{VT}::block_index::kani_harness", funcs=["BlockIndex::from_blob", "BlockDefinition::from_blob", "Blob::read_range"], bounds="every 66-byte string", sample="[u8; 66]", stubs=[POW, "HashMap model"], tier="thorough"),
+	H("c19_header_v3_deserialize", CONT, f"{PT}::header_v3::kani_harness", funcs=["HeaderV3::deserialize", "PMTilesCompression::from_u8", "PMTilesType::from_u8"], bounds="every 127-byte string", sample="[u8; 127]"),
+	H("c19_header_v3_wrong_length", CONT, f"{PT}::header_v3::kani_harness", funcs=["HeaderV3::deserialize"], bounds="every string of 0..=130 bytes except 127", sample="[u8; n]"),
+	H("c19_entries_v3_any_0", CONT, f"{PT}::entries_v3::kani_harness", funcs=["EntriesV3::from_blob"], bounds="empty string", sample="[u8; 0]", expect_cover=False),
+	H("c19_entries_v3_any_1", CONT, f"{PT}::entries_v3::kani_harness", funcs=["EntriesV3::from_blob"], bounds="every 1-byte string", sample="[u8; 1]"),
+	H("c19_entries_v3_any_2", CONT, f"{PT}::entries_v3::kani_harness", funcs=["EntriesV3::from_blob"], bounds="every 2-byte string", sample="[u8; 2]"),
+	H("c19_entries_v3_any_3", CONT, f"{PT}::entries_v3::kani_harness", funcs=["EntriesV3::from_blob"], bounds="every 3-byte string", sample="[u8; 3]", tier="thorough", timeout=1800),
+	H("c19_entries_v3_count1_4", CONT, f"{PT}::entries_v3::kani_harness", funcs=["EntriesV3::from_blob"], bounds="shape: count byte = 1, then every 4-byte body", sample="[1, b1..b4]"),
+	H("c19_entries_v3_count1_5", CONT, f"{PT}::entries_v3::kani_harness", funcs=["EntriesV3::from_blob"], bounds="shape: count byte = 1, then every 5-byte body", sample="[1, b1..b5]", tier="thorough"),
+	H("c19_entries_v3_count2_8", CONT, f"{PT}::entries_v3::kani_harness", funcs=["EntriesV3::from_blob"], bounds="shape: count byte = 2, then every 8-byte body", sample="[2, b1..b8]", tier="thorough", timeout=1800),
+	H("c19_tile_id_to_coord_any", CONT, f"{PT}::tile_id::kani_harness", funcs=["tile_id_to_coord"], bounds="every u64 id", sample="tile id: u64"),
+	H("c19_coord_to_tile_id_bad_zoom", CONT, f"{PT}::tile_id::kani_harness", funcs=["coord_to_tile_id"], bounds="every x, y: u32, z >= 32", sample="x, y, z"),
+]
+
+PROPS["C01"] = {
+	"harnesses": [
+		H("c01_file_header_layout", CONT, f"{VT}::file_header::kani_harness", funcs=["FileHeader::to_blob", "FileHeader::from_blob"], bounds="all 10 tile formats x 3 compressions, every value of every field", sample="FileHeader with all fields symbolic"),
+		H("c01_block_definition_layout", CONT, f"{VT}::block_definition::kani_harness", funcs=["BlockDefinition::new", "BlockDefinition::as_blob", "BlockDefinition::from_blob", "BlockDefinition::get_coord3", "BlockDefinition::get_global_bbox"],
+			bounds="every grid cell (non-empty box inside one 256x256 block) at every level 0..=31; offsets/lengths < 2^62", sample="cell box, tiles range, index length; tile p of the cell", stubs=[POW]),
+		H("c01_tile_index_layout_1", CONT, f"{VT}::tile_index::kani_harness", funcs=["TileIndex::as_blob", "TileIndex::from_blob", "TileIndex::add_offset", "ByteRange::shift_forward", "ByteRange::shift_backward"], bounds="1 entry, offsets < 2^62, lengths u32", sample="TileIndex of 1 symbolic entry"),
+		H("c01_tile_index_layout_2", CONT, f"{VT}::tile_index::kani_harness", funcs=["TileIndex::as_blob", "TileIndex::from_blob", "TileIndex::add_offset"], bounds="2 entries", sample="TileIndex of 2 symbolic entries"),
+		H("c01_tile_index_layout_4", CONT, f"{VT}::tile_index::kani_harness", funcs=["TileIndex::as_blob", "TileIndex::from_blob", "TileIndex::add_offset"], bounds="4 entries", sample="TileIndex of 4 symbolic entries", tier="thorough"),
+		H("c01_header_v3_layout", CONT, f"{PT}::header_v3::kani_harness", funcs=["HeaderV3::serialize", "HeaderV3::deserialize"], bounds="every value of every header field (compression codes 0..=4, type codes 0..=5)", sample="HeaderV3 with all fields symbolic"),
+		H("c01_pmtiles_codes", CONT, f"{PT}::header_v3::kani_harness", funcs=["PMTilesCompression::from_value", "PMTilesCompression::as_value", "PMTilesType::from_value", "PMTilesType::as_value"], bounds="all codes", sample="code bytes"),
+		H("c01_entries_serialize_1", CONT, f"{PT}::entries_v3::kani_harness", funcs=["EntriesSliceV3::serialize_entries", "EntriesV3::from_blob"], bounds="1 entry, every field < 2^7 (one-byte varints; the varint codec itself is decided for all u64 by c11_varint_roundtrip)", sample="1 symbolic entry"),
+		H("c01_entries_serialize_1w", CONT, f"{PT}::entries_v3::kani_harness", funcs=["EntriesSliceV3::serialize_entries", "EntriesV3::from_blob"], bounds="1 entry, every field < 2^14 (two-byte varints)", sample="1 symbolic entry", tier="thorough", timeout=2400),
+		H("c01_entries_serialize_2", CONT, f"{PT}::entries_v3::kani_harness", funcs=["EntriesSliceV3::serialize_entries", "EntriesV3::from_blob"], bounds="2 sorted entries, every field < 2^7", sample="2 symbolic entries"),
+		H("c01_entries_serialize_3", CONT, f"{PT}::entries_v3::kani_harness", funcs=["EntriesSliceV3::serialize_entries", "EntriesV3::from_blob"], bounds="3 sorted entries, every field < 2^7", sample="3 symbolic entries", tier="thorough", timeout=2400),
+	] + [
+		H(f"c01_tile_id_diff_z{z}", CONT, f"{PT}::tile_id::kani_harness", funcs=["coord_to_tile_id", "rotate"], bounds=f"zoom {z}, every x, y: u32 (incl. out of range)", sample="x, y symbolic", tier=t)
+		for z, t in [(0, "quick"), (1, "quick"), (2, "thorough"), (5, "thorough"), (8, "quick"), (12, "thorough"), (16, "thorough"), (24, "thorough"), (31, "quick")]
+	] + [
+		H(f"c01_tile_id_roundtrip_z{z}", CONT, f"{PT}::tile_id::kani_harness", funcs=["coord_to_tile_id", "tile_id_to_coord", "rotate"], bounds=f"zoom {z}, every x, y < 2^{z}", sample="x, y symbolic", tier=t)
+		for z, t in [(0, "quick"), (1, "quick"), (3, "quick"), (6, "thorough"), (10, "thorough")]
+	],
+	"meta": {
+		"assumptions": ["layout oracles are big/little-endian field readers and a varint codec written in the harness from the published versatiles v02 / PMTiles v3 layouts"],
+		"out": ["operation order and positions of the async writers", "de-duplication of payloads < 1000 bytes", "root/leaf split at 16 KiB (depends on gzip output sizes)", "metadata", "MBTiles entirely (row flip sits inside SQL parameter expressions)", "tar and directory I/O", "> 16384 tiles", "tile id round trip above zoom 10"],
+	},
+}
+
+PROPS["C16"] = {
+	"harnesses": [
+		H(f"c16_find_tile_{n}", CONT, f"{PT}::entries_v3::kani_harness", funcs=["EntriesV3::find_tile"], bounds=f"{n} sorted entries with symbolic ids (< 2^62), run lengths (u32, incl. 0 = leaf pointer), ranges; target id any u64", sample=f"{n} symbolic entries + target id", tier=t)
+		for n, t in [(0, "quick"), (1, "quick"), (2, "quick"), (3, "quick"), (5, "thorough")]
+	] + [
+		H(f"c16_entries_decode_{n}", CONT, f"{PT}::entries_v3::kani_harness", funcs=["EntriesV3::from_blob"], bounds=f"{n} sorted entries, every field < 2^{7 if not str(n).endswith('w') else 14}, encoder may or may not use the contiguous-offset shorthand", sample=f"directory of {n} entries written by the harness' own varint encoder", tier=t, timeout=to)
+		for n, t, to in [(1, "quick", None), ("1w", "thorough", 2400), (2, "quick", None), (3, "thorough", 2400)]
+	] + [
+		H("c16_block_index_sparse", CONT, f"{VT}::block_index::kani_harness", funcs=["BlockIndex::from_blob", "BlockDefinition::from_blob", "BlockIndex::get_block", "BlockIndex::get_bbox_pyramid", "TileBBoxPyramid::include_bbox"],
+			bounds="sparse index of 2 distinct blocks at symbolic levels/positions with partial local boxes", sample="two symbolic block records written by the harness' own encoder", stubs=[POW, "HashMap model"], timeout=900),
+	],
+	"meta": {
+		"assumptions": ["HashMap model in BlockIndex"],
+		"out": ["MBTiles, tar, directory containers", "three-level PMTiles trees", "real compression", "whole VersaTilesReader/PMTilesReader runs (async I/O)"],
+	},
+}
+
+c15g = "verif_kani::c15geo"
+LIBM = "f64::tan, f64::ln -> monotone nondeterministic model consistent across calls; f64::powi(2,z) -> exact table"
+PROPS["C15"]["harnesses"] += [
+	H(f"c15_h12_geo_x_z{z}", CORE, c15g, funcs=["TileBBox::from_geo", "TileCoord2::from_geo", "GeoBBox::check", "TileBBox::new"], bounds=f"zoom {z}; every west <= east in [-180, 180] (all f64 bit patterns); latitude fixed to 0", sample="west, east: f64 symbolic", stubs=[LIBM, POW], tier=t)
+	for z, t in [(0, "quick"), (1, "thorough"), (3, "quick"), (9, "thorough"), (16, "thorough"), (24, "thorough"), (31, "quick")]
+] + [
+	H(f"c15_h13_geo_y_z{z}", CORE, c15g, funcs=["TileBBox::from_geo", "TileCoord2::from_geo", "GeoBBox::check", "TileBBox::new"], bounds=f"zoom {z}; every south <= north in [-90, 90]; longitude fixed to 0; tan/ln by the monotone model", sample="south, north: f64 symbolic", stubs=[LIBM, POW], tier=t)
+	for z, t in [(0, "quick"), (1, "thorough"), (3, "quick"), (9, "thorough"), (16, "thorough"), (24, "thorough"), (31, "quick")]
+]
+PROPS["C15"]["meta"]["assumptions"].append("geo harnesses: tan/ln replaced by nondeterministic functions constrained to be monotone and consistent across calls (+ sign/range facts); the y claims hold given a monotone libm")
+
+# ------------------------------------------------------------------------------------------ C06 / C04
+c06 = "verif_kani::c06"
+c04 = "verif_kani::c04"
+CODEC = "codec model: compress_X(p) = TAG_X ++ p, decompress_X inverse, Err otherwise (lossless-codec contract; flate2/brotli outside the claim)"
+ECHO = "echo source whose content is exactly its advertised pyramid (one symbolic box at one symbolic level) and whose payloads are their own coordinates"
+PROPS["C06"] = {
+	"harnesses": [
+		H("c06_h1_coverage", CONT, c06, funcs=["TilesConvertReader::new_from_reader", "<TileBBoxPyramid as TransformCoord>::flip_y", "<TileBBoxPyramid as TransformCoord>::swap_xy", "TileBBoxPyramid::intersect"],
+			bounds="all 4 flag combinations, level and boxes symbolic (full-width), optional requested pyramid; coordinate c any u32 x u32 x level", sample=ECHO + "; flags; optional requested box; coordinate c", stubs=[POW], timeout=900),
+		H("c06_h2_lookup", CONT, c06, funcs=["TilesConvertReader::new_from_reader", "<TilesConvertReader as TilesReaderTrait>::get_tile_data", "<TileCoord3 as TransformCoord>::flip_y", "<TileCoord3 as TransformCoord>::swap_xy", "TileConverter::process_blob"],
+			bounds="all 4 flag combinations, level and boxes symbolic, optional requested pyramid; requested coordinate any x, y: u32 (incl. out of range), z <= 31", sample=ECHO + "; flags; coordinate c", stubs=[POW], timeout=900),
+		H("c06_h3_stream", CONT, c06, funcs=["<TilesConvertReader as TilesReaderTrait>::get_bbox_tile_stream", "TileStream::map_coord", "TileConverter::process_stream", "<TileBBox as TransformCoord>::flip_y", "<TileBBox as TransformCoord>::swap_xy"],
+			bounds="all 4 flag combinations; requested box at most 2x2 tiles at any position", sample=ECHO + "; flags; requested box q", stubs=[POW, "TileStream::map_blob_parallel -> sequential map"], tier="thorough", timeout=2400),
+		H("c06_add_border", CORE, c15, funcs=["TileBBox::add_border"], bounds=ALL_LEVELS + "; border widths any u32", sample=BBOX + "; four border widths"),
+	],
+	"meta": {
+		"assumptions": ["source = echo reader (TilesReaderTrait impl in the harness) whose tiles are exactly its advertised coverage", "hand-rolled block_on: the futures involved never suspend"],
+		"out": ["the writers behind `convert` (C01)", "the `serve` CLI wiring of the same flags (shares TilesConvertReader)", "CLI option -> pyramid glue in convert.rs (bin target)", "antimeridian/pole geometry"],
+	},
+}
+PROPS["C04"] = {
+	"harnesses": [
+		H("c04_h1_recompressor", CONT, c04, funcs=["TileConverter::new_tile_recompressor", "TileConverter::process_blob", "FnConv::run", "utils::compress", "utils::decompress"], bounds="3 x 3 x 2 configurations (unrolled) x payload of 0..=3 symbolic bytes", sample="payload bytes", stubs=[CODEC]),
+		H("c04_h2_dispatch", CONT, c04, funcs=["utils::recompress", "utils::compress", "utils::decompress"], bounds="3 x 3 configurations x payload of 0..=3 symbolic bytes", sample="payload bytes", stubs=[CODEC]),
+		H("c04_h4_decompressor", CONT, c04, funcs=["TileConverter::new_decompressor", "TileConverter::process_blob"], bounds="3 source compressions x payload of 0..=3 symbolic bytes", sample="payload bytes", stubs=[CODEC]),
+		H("c04_h3_convert_reader", CONT, c04, funcs=["TilesConvertReader::new_from_reader", "<TilesConvertReader as TilesReaderTrait>::get_tile_data", "<TilesConvertReader as TilesReaderTrait>::get_parameters", "TileConverter::process_blob"],
+			bounds="source compression x requested compression (None or one of 3) x force flag, all symbolic; source level/box symbolic", sample=ECHO + "; compressions; force", stubs=[CODEC, POW], timeout=900),
+	],
+	"meta": {
+		"assumptions": [CODEC],
+		"out": ["real gzip/brotli round trips", "payloads > 3 bytes (the code never inspects payload bytes; the codec model is length-agnostic)", "metadata compression inside the async writers"],
+	},
+}
+
+# ------------------------------------------------------------------------------------------ geometry crate: C11 / C10 / C19
+GEO = "versatiles_geometry"
+c11 = "vector_tile::verif_c11"
+PROPS["C11"] = {
+	"harnesses": [
+		H("c11_varint_roundtrip", CORE, c19c, funcs=["ValueWriter::write_varint", "ValueReader::read_varint"], bounds="every u64", sample="v: u64"),
+		H("c11_svarint_roundtrip", CORE, c19c, funcs=["ValueWriter::write_svarint", "ValueReader::read_svarint"], bounds="every i64", sample="v: i64"),
+	] + [
+		H(f"c11_value_{k}", GEO, c11, funcs=["<GeoValue as GeoValuePBF>::to_blob", "<GeoValue as GeoValuePBF>::read"], bounds=b, sample="value payload symbolic", stubs=[MON])
+		for k, b in [("uint", "every u64"), ("int", "every i64"), ("bool", "both"), ("float", "every f32 bit pattern"), ("double", "every f64 bit pattern"), ("string", "ASCII strings of 0..=2 bytes")]
+	] + [
+		H(f"c11_layer_read_{nk}_{nv}", GEO, c11, funcs=["VectorTileLayer::read", "VectorTileFeature::read", "PropertyManager::add_key", "PropertyManager::add_val", "VTLPMap::add"],
+			bounds=f"layer with {nk} key and {nv} value table entries chosen from 2-element pools (duplicates occur), 1 feature with symbolic id (<128), geometry type 0..=3, 1 opaque geometry byte, 1 symbolic tag pair, extent < 128",
+			sample="layer bytes written by the harness' own MVT encoder from a symbolic ground truth", stubs=[MON, "HashMap model"], tier=t)
+		for nk, nv, t in [(1, 1, "quick"), (2, 2, "quick")]
+	] + [
+		H(f"c11_layer_reencode_{nk}_{nv}", GEO, c11, funcs=["VectorTileLayer::read", "VectorTileLayer::to_blob", "VectorTileFeature::to_blob"],
+			bounds=f"as c11_layer_read_{nk}_{nv}; read -> to_blob -> read compared with the ground truth", sample="ground truth as above", stubs=[MON, "HashMap model"], tier=t, timeout=1200)
+		for nk, nv, t in [(1, 1, "quick"), (2, 2, "thorough")]
+	],
+	"meta": {
+		"assumptions": ["HashMap model in PropertyManager/VTLPMap", "ground truth comes from an MVT encoder written in the harness from the 2.1 schema"],
+		"out": ["geometry decoding to coordinates", "CSV reading", "tables > 2 entries", "real MVT files", "the vectortiles_update_properties operation itself (pipeline crate: Runner::run, BTreeMap-based GeoProperties)"],
+	},
+}
+PROPS["C19"]["harnesses"] += [
+	H("c19_vector_tile_any_0", GEO, c11, funcs=["VectorTile::from_blob"], bounds="empty input", sample="[u8; 0]", stubs=[MON], expect_cover=False),
+	H("c19_vector_tile_any_2", GEO, c11, funcs=["VectorTile::from_blob", "VectorTileLayer::read"], bounds="every 2-byte string", sample="[u8; 2]", stubs=[MON]),
+	H("c19_vector_tile_any_4", GEO, c11, funcs=["VectorTile::from_blob", "VectorTileLayer::read", "VectorTileFeature::read"], bounds="every 4-byte string", sample="[u8; 4]", stubs=[MON], timeout=900),
+	H("c19_geo_value_any_0", GEO, c11, funcs=["<GeoValue as GeoValuePBF>::read"], bounds="empty input", sample="[u8; 0]", stubs=[MON], expect_cover=False),
+	H("c19_geo_value_any_3", GEO, c11, funcs=["<GeoValue as GeoValuePBF>::read"], bounds="every 3-byte string", sample="[u8; 3]", stubs=[MON]),
+	H("c19_geo_value_any_10", GEO, c11, funcs=["<GeoValue as GeoValuePBF>::read"], bounds="every 10-byte string", sample="[u8; 10]", stubs=[MON], tier="thorough", timeout=2400),
+	H("c19_layer_any_3", GEO, c11, funcs=["VectorTileLayer::read"], bounds="every 3-byte string", sample="[u8; 3]", stubs=[MON]),
+	H("c19_layer_any_5", GEO, c11, funcs=["VectorTileLayer::read", "VectorTileFeature::read"], bounds="every 5-byte string", sample="[u8; 5]", stubs=[MON], tier="thorough", timeout=2400),
+]
